@@ -256,6 +256,9 @@ type packetConn struct {
 	// server loop, not packetConn, is the sender on it.
 	closed  chan struct{}
 	closeCh chan *packetConn
+	// closing is set by the first Close(): a handler may close the connection
+	// itself before the server does so when the handler returns
+	closing atomic.Bool
 	// If not nil, then the previous Read() call didn't consume all the data
 	// from the buffer, and this packet will be reused in the next Read()
 	// without waiting for readCh.
@@ -379,6 +382,9 @@ func (pc *packetConn) Write(b []byte) (n int, err error) {
 }
 
 func (pc *packetConn) Close() error {
+	if !pc.closing.CompareAndSwap(false, true) {
+		return net.ErrClosed
+	}
 	if pc.lastPacket != nil {
 		udpBufPool.Put(pc.lastPacket.pooledBuf)
 		pc.lastPacket = nil
